@@ -9,6 +9,7 @@ for rf in sorted(glob.glob(f"{res_dir}/*.txt")):
     name = os.path.basename(rf)[:-4]            # C01-1
     pid, n = name.split("-")
     out = f"/tmp/seed/{pid}-out" if round_tag == "round1" else f"/tmp/seed2/{pid}-out"
+    ported = os.path.exists(f"{out}/patch{n}.ported.diff")
     text = open(rf).read()
     if "DONE" not in text:
         continue
@@ -34,10 +35,34 @@ for rf in sorted(glob.glob(f"{res_dir}/*.txt")):
             if l.startswith("-- "): break
             head.append(l)
         without = " | ".join(head)
+    # confirmation log written by a dedicated run of tools/confirm_seed.sh, when present
+    cf = rf.replace("/results/", "/confirm/")
+    if os.path.exists(cf):
+        lines_c = open(cf).read().splitlines()
+        def after_c(tag):
+            try:
+                i = lines_c.index(tag)
+            except ValueError:
+                return []
+            o = []
+            for l in lines_c[i+1:]:
+                if l.startswith("-- "): break
+                o.append(l)
+            return o
+        without = " | ".join(after_c("-- without patch: demo"))
+        after = after_c
     suite = " | ".join(after("-- with patch: suite"))
     demo = " | ".join(after("-- with patch: demo"))
     confirmed = ("ok." in without and "FAILED" not in without) and suite.count("62 passed") == 2 and ("FAILED" in demo or "error" in demo)
     det = [l.split()[1] for l in lines if re.match(r"^C\d\d-\d+ C\d\d exit=1", l)]
+    # cross-detections from the earlier run of the related checks (older engine version)
+    grp = rf.replace("/results/", "/results-group/")
+    also = []
+    if os.path.exists(grp):
+        also = [l.split()[1] for l in open(grp).read().splitlines() if re.match(r"^C\d\d-\d+ C\d\d exit=1", l) and l.split()[1] != pid]
+        if round_tag == "round1":
+            # in that run the lanes were one fix behind the engine: C13 / C17 alarms are not attributable
+            also = [a for a in also if a not in ("C13", "C17")]
     mach = [l.split()[1] for l in lines if re.match(r"^C\d\d-\d+ C\d\d exit=2", l)]
     classes = {l.split()[1]: l.split("class=",1)[1][:160] for l in lines if "exit=1" in l and "class=" in l}
     notes = open(f"{out}/notes.md").read() if os.path.exists(f"{out}/notes.md") else ""
@@ -49,12 +74,15 @@ for rf in sorted(glob.glob(f"{res_dir}/*.txt")):
     d = f"/verif/seeded/{pid}-{n}" if round_tag == "round1" else f"/verif/seeded/{pid}-{round_tag}-{n}"
     os.makedirs(d, exist_ok=True)
     shutil.copy(f"{out}/patch{n}.diff", f"{d}/patch.diff")
+    if ported:
+        shutil.copy(f"{out}/patch{n}.ported.diff", f"{d}/patch.ported-to-current-head.diff")
     if os.path.exists(f"{out}/demo{n}.rs"):
         shutil.copy(f"{out}/demo{n}.rs", f"{d}/demo.rs")
     meta = {
         "property": pid,
         "source": "independent sub-agent given only the property text and a scratch worktree of /repo",
-        "base_commit": "88e0012" if round_tag == "round1" else None,
+        "base_commit": "88e0012" if round_tag == "round1" else "f1835f9",
+        "ported": ported,
         "what_and_what_it_needs_to_manifest": sec.strip()[:2500] or "see the agent's notes (not parsed)",
         "confirmation": {
             "how": "tools/confirm_seed.sh in the scratch worktree: demo on unchanged HEAD; git apply patch; cargo test --offline --lib (ps 8 and 4); demo again",
@@ -63,9 +91,9 @@ for rf in sorted(glob.glob(f"{res_dir}/*.txt")):
         },
         "detection": {
             "how": "tools/lanes.sh: patch applied in a lane worktree of /repo at its HEAD, every check's quick tier run against it (evidence redirected), worktree reverted",
-            "detected_by": det, "first_violation_class": classes, "machinery_failures": mach,
+            "detected_by": det, "also_detected_by_related_checks_in_an_earlier_run": sorted(set(also)), "first_violation_class": classes, "machinery_failures": mach,
             "own_check_detects": pid in det,
         },
     }
     json.dump(meta, open(f"{d}/meta.json", "w"), indent=1)
-    print(name, "confirmed" if confirmed else "NOT-CONFIRMED", "detected_by", det, ("MACH "+str(mach)) if mach else "")
+    print(name, "confirmed" if confirmed else "NOT-CONFIRMED", "detected_by", det, "also", sorted(set(also)), ("MACH "+str(mach)) if mach else "")
